@@ -98,8 +98,8 @@ let fuel = nat_of_int 40
 
 (* ---- the tree stages (Save/TreeApp.v): the case's port tree as a [pt] - names and structure
    from the tree field, the data of a leaf from the flat application (the port of that name
-   at that depth).  None: the tree is outside the class of TreeApp.v (rSelf / "name/toggle"
-   forms of 'enabled by', a pointer sub-tree that never exists). *)
+   at that depth).  None: the tree is outside the class of TreeApp.v (a pointer sub-tree that
+   never exists, the macro-made application). *)
 exception Outside
 let last_comp (p:z list) : z list =
   let s = string_of_chars p in
@@ -131,7 +131,8 @@ let pt_of_case (tree:string) (a:port list) : pt list option =
             | _ -> acc) None items in
       List.filter_map (fun it ->
           match it with
-          | ["p"; "self"; _; _] -> raise Outside
+          | ["p"; "self"; _; meta] ->            (* rSelf: the non-parameter port "self:" with its 'enabled by' *)
+            Some (PAux (chars_of_string "self", meta_value (Some (bytes_of_hex meta)) key_enabled_by))
           | ["p"; "subp"; _; _] -> None          (* "name:" - the object pointer, no parameter *)
           | ["p"; fid; nm; meta] when fid = "sub" || fid = "arr" || fid = "ptr" ->
             let s = string_of_chars (bytes_of_hex nm) in
@@ -145,10 +146,9 @@ let pt_of_case (tree:string) (a:port list) : pt list option =
                           | Some f -> (match name_of_fid f with Some x -> Some x | None -> raise Outside)
                           | None -> if ptr_init then None else raise Outside)
                        else None) in
-            let sw = (if fid = "ptr" then None else
-                        match eb with
-                        | Some v -> if List.exists (fun c -> int_of_z c = 47) v then raise Outside else Some v
-                        | None -> None) in
+            (* the literal value of the property: "tg" (a toggle of this table) or the inner-switch
+               form "name/tg" / "name#N/tg" (TreeApp.sw_addr tells them apart as the code does) *)
+            let sw = (if fid = "ptr" then None else eb) in
             Some (PSub (chars_of_string n, enum, ptr, sw, table (t + 1)))
           | ["p"; _; nm; _] ->
             let (n, arr) = leaf_name nm in
@@ -165,6 +165,19 @@ let pt_of_case (tree:string) (a:port list) : pt list option =
     end in
   try Some (table 0) with Outside -> None | Invalid_argument _ -> None | Failure _ -> None
 
+(* some sub-tree port of the tree carries the inner-switch form / some table an rSelf port
+   (statistics only) *)
+let rec inner_form (t:pt list) : bool =
+  List.exists (function
+      | PLeaf _ | PAux _ -> false
+      | PSub (_, _, _, sw, sub) ->
+        (match sw with Some v -> List.exists (fun c -> int_of_z c = 47) v | None -> false) || inner_form sub) t
+let rec self_form (t:pt list) : bool =
+  List.exists (function
+      | PLeaf _ -> false
+      | PAux _ -> true
+      | PSub (_, _, _, _, sub) -> self_form sub) t
+
 (* the checks of the tree stages for one state: the flattening is the case's application,
    names_ok holds, walk_ports with the runtime object reaches the live ports, the saved lines
    handed to Ports::dispatch on the tree (C04 + C14) give what apply_line gives.  "" = all hold
@@ -174,22 +187,39 @@ let tree_mark (tree:string) (a:port list) (ap:z list -> pmeta option) (sa:value 
   match pt_of_case tree a with
   | None -> stat "outside"; ""
   | Some t ->
-    stat (if names_ok (sports_of t) then "checked" else "names_ok=false");
+    let hyp = names_ok (sports_of t) && switches_ok t in
+    stat (if hyp then (if self_form t then "checked-rself" else if inner_form t then "checked-inner" else "checked")
+          else if names_ok (sports_of t) then "switches_ok=false" else "names_ok=false");
     (* the case's application lists the leaves of a table in front of its sub-trees, app_of_tree
        in table order (the walk's): compared port by port through the addresses *)
     let b = app_of_tree t in
     let path_of app i = (port_at app i).p_path in
+    (* p_soft is a conjunction: when a sub-tree inside one with an inner switch is enabled by that
+       same switch the walk asks it twice (app_of_tree lists it twice), the generator once *)
+    let dedup l = List.rev (List.fold_left (fun acc x -> if List.mem x acc then acc else x :: acc) [] l) in
     let norm app = List.sort compare (List.mapi (fun _ p ->
         (p.p_path, (p.p_kind, p.p_array, p.p_len, p.p_min0, p.p_max0),
          (p.p_opts, p.p_default, p.p_table, p.p_nodef, p.p_init),
          ((match p.p_sel with Some j -> Some (path_of app j) | None -> None),
-          List.map (path_of app) p.p_hard, List.map (path_of app) p.p_soft))) app) in
-    if norm b <> norm a then "TREEMODEL(flattening) "
-    else if not (names_ok (sports_of t)) then ""       (* hypothesis of the tree theorems: e.g. q0n beside q#3/ is outside *)
+          List.map (path_of app) p.p_hard, dedup (List.map (path_of app) p.p_soft)))) app) in
+    (* a non-parameter port ("self:") has an entry without default in app_of_tree, none in the
+       case's application *)
+    let is_aux p = p.p_nodef && last_comp p.p_path = chars_of_string "self" in
+    let bp = List.filter (fun p -> not (is_aux p)) b in
+    let norm' app = List.filter (fun (pa, _, _, _) -> List.exists (fun p -> p.p_path = pa) bp) (norm app) in
+    if Sys.getenv_opt "TREEDBG" <> None && norm' b <> norm a then
+      (try List.iter2 (fun (pa, _, _, (sa, ha, fa)) (pb, _, _, (sb, hb, fb)) ->
+          if (pa, sa, ha, fa) <> (pb, sb, hb, fb) then
+            prerr_endline (Printf.sprintf "TREEDIFF %s soft case=[%s] tree=[%s] hard case=[%s] tree=[%s]" (string_of_chars pa)
+                             (String.concat " " (List.map string_of_chars fa)) (String.concat " " (List.map string_of_chars fb))
+                             (String.concat " " (List.map string_of_chars ha)) (String.concat " " (List.map string_of_chars hb))))
+        (norm a) (norm' b) with Invalid_argument _ -> prerr_endline "TREEDIFF different numbers of ports");
+    if norm' b <> norm a then "TREEMODEL(flattening) "
+    else if not hyp then ""       (* hypotheses of the tree theorems: e.g. q0n beside q#3/ is outside *)
     else begin
       (* the state in the order of b *)
       let idx_in_a p = let rec go i = function [] -> raise Not_found | q :: r -> if q.p_path = p then i else go (i + 1) r in go 0 a in
-      let sb = List.map (fun p -> val_at sa (nat_of_int (idx_in_a p.p_path))) b in
+      let sb = List.map (fun p -> if is_aux p then [VI (z_of_int 0)] else val_at sa (nat_of_int (idx_in_a p.p_path))) b in
       let n = List.length b in
       let lives = List.filter (fun i -> live b sb (nat_of_int i)) (List.init n (fun i -> i)) in
       if List.map int_of_nat (walk_tree t sb) <> lives then "TREEMODEL(walk) "
@@ -211,6 +241,26 @@ let tree_mark (tree:string) (a:port list) (ap:z list -> pmeta option) (sa:value 
    output line is marked, so the case shows up as a disagreement *)
 let decl_mark (a:port list) (ap:z list -> pmeta option) : string =
   if declared_b a ap then "" else "UNDECLARED "
+
+(* the side conditions of the round-trip / permutation theorems, evaluated for this case
+   (Save/CondModel.v; sound by C12_wf_app_computed, C12_full_conditions_computed, C13_ranked_computed):
+   wf = wf_app a, full = full_conditions a st (the state the file is saved from), rk = the edges the
+   scan_deps model produces for the saved file are acyclic.  Informational field (the harness prints
+   cond=-): the plug-in counts them into the evidence's input distribution. *)
+(* every message of the case's history is msg_ok (ReachProofs: what it stores is stored again) *)
+let mops_ok (a:port list) (mops:string) : bool =
+  if mops = "-" then true else
+    List.for_all (fun o ->
+        match split_on '.' o with
+        | [i; _; v] -> msg_ok_b (port_at a (nat_of_int (int_of_string i))) (parse_scalar v)
+        | _ -> false) (split_on ';' mops)
+
+let cond_text (a:port list) (ap:z list -> pmeta option) (st:value list) : string =
+  let b x = if x then "1" else "0" in
+  let ls = save_lines a st in
+  let ms = List.map (fun l -> (l.l_path, l)) ls in
+  let rk = (match pushes ap fuel ms with Some ps -> ranked_b ps | None -> false) in
+  Printf.sprintf "wf%s,full%s,rk%s,ds%s" (b (wf_app_b a)) (b (full_conditions_b a st)) (b rk) (b (defaults_stable_b a))
 
 let run_ops (a:port list) (mops:string) (st:value list) : value list =
   if mops = "-" then st else
@@ -245,6 +295,18 @@ let sort_lines (ls:line list) : line list =
 
 let items_of_lines ls = List.map (fun l -> Msg (l, z_of_int 1)) ls
 
+(* the body save_to_file writes, as the printer's model (C10's print_message with the default options,
+   Save/LinesModel.v print_line) prints the saved lines: one hex text per line without its line feed,
+   sorted; cls = how many of the lines are in the class good_line_b of C12_roundtrip_tree_real_lines_partial
+   (informational: the harness prints cls=- and the field is not compared) *)
+let body_text (ls:line list) : string =
+  let one l = match print_line opts_default l with
+    | Some t -> let t' = (match List.rev t with _ :: r -> List.rev r | [] -> []) in hex_of_bytes t'
+    | None -> "NONE" in
+  if ls = [] then "-" else String.concat "|" (List.sort compare (List.map one ls))
+let cls_text (ls:line list) : string =
+  Printf.sprintf "%d/%d" (List.length (List.filter good_line_b ls)) (List.length ls)
+
 let parse_item (s:string) : item =
   match split_on ',' s with
   | ["j"] -> Junk
@@ -264,8 +326,8 @@ let () = each_line (fun line ->
       (match load_file ap fuel a (chars_of_string "app") f st0 with
        | None -> print_endline "NOFUEL"
        | Some (r, sb) ->
-         Printf.printf "%s%shdr=1 lines=%s ret=%s A=%s B=%s fresh=%s\n" (decl_mark a ap) (tree_mark tree a ap sa) (show_lines ls) (z_to_string r)
-           (dump a sa) (dump a sb) (show_lines (save_lines a st0)))
+         Printf.printf "%s%shdr=1 lines=%s ret=%s A=%s B=%s fresh=%s body=%s cls=%s cond=%s\n" (decl_mark a ap) (tree_mark tree a ap sa) (show_lines ls) (z_to_string r)
+           (dump a sa) (dump a sb) (show_lines (save_lines a st0)) (body_text ls) (cls_text ls) (cond_text a ap sa ^ (if mops_ok a mops then ",mo1" else ",mo0")))
     | "perm" :: tree :: flat :: _ :: groups :: _ :: mops :: _ ->
       let a = parse_app flat in
       let ap = parse_apro_tree tree in
@@ -290,7 +352,7 @@ let () = each_line (fun line ->
                   Printf.sprintf "%s@%s@%s" (z_to_string r) (if names = [] then "-" else String.concat ">" names) shown
                 | _, _ -> "NOFUEL"
               end) (split_on '/' g))) (split_on ';' groups) in
-      Printf.printf "%sn=%d %s\n" (decl_mark a ap) n (String.concat ";" gs)
+      Printf.printf "%sn=%d %s cond=%s\n" (decl_mark a ap) n (String.concat ";" gs) (cond_text a ap sa ^ (if mops_ok a mops then ",mo1" else ",mo0"))
     | "macro" :: _ :: name :: meta :: _ -> Printf.printf "name=%s meta=%s\n" name meta
     | "rej" :: tree :: flat :: _ :: appname :: _ :: absf :: _ ->
       let a = parse_app flat in
